@@ -1010,6 +1010,7 @@ class C02(PropBase):
     coq_dirs = ["Base", "C02", "C08"]
     translators = ["format_layouts.py"]
     bins = ["c02"]
+    translators = ["format_layouts.py"]
     impl_mem_gb = 4
     rule = ("a case = one dump model (header fields, 0..40 items per list, UTF-16 names incl. unpaired surrogates, CodeView records of "
             "every kind, build ids 0..64 bytes, regions 0..64 KiB anywhere in u64, duplicate directory entries, list padding on/off) "
@@ -1024,20 +1025,23 @@ class C02(PropBase):
         "correspondence run on identical bytes and by the synth cross-check; C08 range-table model for memory_at_address",
         "extraction: ExtrOcamlBasic only; ocaml/zconv.ml + ocaml/c02/main.ml; harness/src/bin/c02.rs",
     ]
-    assumptions = ["thread/exception CPU contexts are byte blobs in the theorems; their interpretation (x86/amd64/arm/arm64 layouts regenerated from format.rs, "
-                   "context_flags test) is compared field by field in the correspondence run and recomputed by the oracle; other architectures are not modelled",
-                   "Linux maps, handles, Crashpad annotations and other free-text streams are outside the model",
+    assumptions = ["handle data and Crashpad info streams are not in the dump model (their structs are translated and pinned); MozSoftErrors, "
+                   "LinuxCmdLine/Auxv/DsoDebug and the Mac streams are not modelled",
+                   "Linux text streams are byte-exact raw streams in the theorem; the key/value syntax of cpuinfo/status/lsb-release/environ is compared "
+                   "against a Coq model of linux_list_iter in the correspondence run, maps/limits line syntax belongs to other properties",
                    "lossy UTF-8 decoding of PDB file names and UTF-16 -> String conversion are exercised (Python re-derives them), not modelled in Coq"]
     manifest = {
         "text": "Theorems (Coq, all values in range, both byte orders, any number of items): the generic layout codec round-trips every struct layout "
-                "regenerated from format.rs; list framing (count header, 0-or-4 padding), UTF-16 strings, CodeView records and the whole dump "
-                "(header, directory with arbitrary leading duplicates, system info, threads, modules, MemoryList/Memory64List, exception, thread names, "
-                "unloaded modules, memory info, misc info) decode to exactly the encoded model; little- and big-endian encodings decode to the same model; "
-                "the last directory entry of a type is served; every address of an isolated region reads back its byte (via the C08 theorems). "
+                "regenerated from format.rs (all 74 parseable structs, pinned against the documented layouts); list framing (count header, 0-or-4 padding), "
+                "UTF-16 strings, CodeView records and the whole dump of 19 streams (header, directory with arbitrary leading duplicates, system info, threads, "
+                "modules, MemoryList/Memory64List, exception, thread names, unloaded modules, memory info, misc info, Breakpad info, assertion info, thread "
+                "info list, six Linux text streams as raw bytes) decode to exactly the encoded model; little- and big-endian encodings decode to the same model; "
+                "the last directory entry of a type is served; every address of an isolated region reads back its byte (C08); CPU contexts of nine "
+                "architectures read back their registers iff context_flags match; debug/code identifiers are the documented functions of the CodeView record. "
                 "The model is tied to the code by reading the same Coq-serialized bytes with the real Minidump::read/get_stream and with the extracted decoder, "
                 "by a cross-check against minidump-synth, and by an independent Python oracle.",
         "note": "Trusted: Coq kernel; layout translator; hand-written reader model (correspondence-checked, not verified against the Rust source); "
-                "extraction + OCaml/Rust glue. CPU context interpretation is correspondence-only (4 architectures); free-text streams are not covered.",
+                "extraction + OCaml/Rust glue. Handle data and Crashpad streams are outside the dump model; Linux text content is correspondence-only.",
     }
 
     # ---- stage 1: models -> bytes through the extracted serializer
